@@ -6,6 +6,7 @@ SQLite's checkpoint), tied to the code by byte-for-byte comparison of compacted 
 by comparing `ckpt` with SQLite's own checkpoint of real WALs.
 -/
 import RqModel.Model.Wal
+import RqModel.Lemmas.Wal
 namespace C05
 open RqModel.Wal
 
@@ -145,6 +146,13 @@ theorem last_frame_is_commit_with_final_size (fs : List Frame) (hne : fs ≠ [])
     · unfold finalSize; rw [committed_eq_self _ f hl' hc, hl']
     · unfold finalSize; rw [committed_eq_self _ f hl hc, hl]
 
+/-- **scan_algorithm_correct.** The algorithm `scan` actually runs — a per-transaction map and
+a committed map keyed by page number, merged at every commit frame, values finally sorted
+by file offset — computes `compactFrames` (last frame of every page, in file order) for
+every frame list that does not end in an open transaction. -/
+theorem scan_algorithm_correct (fs : List Frame) (h : openTx fs = false) :
+    scanLiteral fs = compactFrames fs := scanLiteral_eq fs h
+
 /-! ### byte level: what `compact` returns -/
 
 /-- **compact_ok_iff.** `compact` succeeds exactly when the header parses, the arguments are
@@ -174,7 +182,7 @@ theorem compact_ok (full : Bool) (start : Nat) (wal out : Bytes) (h : compact fu
         by_cases ho : openTx fs = true
         · simp [ho] at h
         · have ho' : openTx fs = false := by simpa using ho
-          simp only [ho', Bool.false_eq_true, if_false] at h
+          simp only [ho', Bool.false_eq_true, if_false, scanLiteral_eq fs ho'] at h
           cases hw : writeCheck hd.pageSize (compactFrames fs) with
           | some e' =>
             rw [hw] at h
@@ -218,6 +226,86 @@ theorem compact_equiv_bytes (full : Bool) (start : Nat) (wal out : Bytes) (ps : 
       out = serialize hd kept ∧ ckpt ps db kept = ckpt ps db fs := by
   obtain ⟨hd, fs, hp, _, hs, ho, _, hout⟩ := compact_ok full start wal out h
   exact ⟨hd, fs, compactFrames fs, hp, hs, hout, compact_equiv ps db fs ho⟩
+
+/-! ### writer / reader round trip -/
+
+theorem serializeHeader_length (h : Header) : (serializeHeader h).length = 32 := by
+  simp [serializeHeader, enc32_length]
+
+/-- **writer_reader_roundtrip.** Reading back, with full checksum verification (as SQLite
+does), what the writer produced for a well-formed header and whole-page frames gives exactly
+the same header and the same frames, every one of them checksum-valid, and nothing else. -/
+theorem writer_reader_roundtrip (h : Header) (hw : h.WF) (hp : h.pageSize % 8 = 0) (fs : List Frame)
+    (hg : ∀ f ∈ fs, GoodFrame h f) :
+    parseHeader (serialize h fs) = .ok h ∧ scanFrames true h 0 (serialize h fs) = (fs, .eof) := by
+  refine ⟨parseHeader_serialize h hw _, ?_⟩
+  simp only [scanFrames, serialize, Nat.zero_mul, Nat.add_zero]
+  have hd : (serializeHeader h ++ serializeFrames h (h.chk1, h.chk2) fs).drop 32 =
+      serializeFrames h (h.chk1, h.chk2) fs := by
+    rw [List.drop_append_of_le_length (by rw [serializeHeader_length]; exact Nat.le_refl _)]
+    rw [List.drop_of_length_le (by rw [serializeHeader_length]; exact Nat.le_refl _)]
+    rfl
+  rw [hd]
+  exact readFrames_serializeFrames h hp hw.2.2.2.1 hw.2.2.2.2.1 fs _ _
+    (by have := serializeFrames_length h fs (h.chk1, h.chk2); omega) hg
+
+theorem writeCheck_none (ps : Nat) : ∀ (l : List Frame), writeCheck ps l = none →
+    ∀ f ∈ l, ps ≤ f.data.length ∧ ps % 8 = 0 := by
+  intro l
+  induction l with
+  | nil => intro _ f hf; simp at hf
+  | cons a t ih =>
+    intro h f hf
+    simp only [writeCheck] at h
+    split at h
+    · cases h
+    rename_i h1
+    split at h
+    · cases h
+    rename_i h2
+    rcases List.mem_cons.1 hf with rfl | hf'
+    · exact ⟨by omega, by omega⟩
+    · exact ih h f hf'
+
+/-- **compact_output_parses.** Whatever WAL bytes go in: if `compact` returns a WAL, then a
+checksum-verifying reader (SQLite) reads from it the same header and exactly the kept
+frames of the scan, all valid, up to the end of the file. Together with `compact_equiv`:
+checkpointing what SQLite reads from the compacted WAL equals checkpointing what the scan
+accepted from the original. -/
+theorem compact_output_parses (full : Bool) (start : Nat) (wal out : Bytes) (ps : Nat) (db : List Bytes)
+    (h : compact full start wal = .ok out) :
+    ∃ hd fs, parseHeader wal = .ok hd ∧ scanFrames full hd start wal = (fs, .eof) ∧
+      parseHeader out = .ok hd ∧ scanFrames true hd 0 out = (compactFrames fs, .eof) ∧
+      ckpt ps db (scanFrames true hd 0 out).1 = ckpt ps db fs := by
+  obtain ⟨hd, fs, hp, _, hs, ho, hw, hout⟩ := compact_ok full start wal out h
+  have hwf := parseHeader_wf wal hd hp
+  subst hout
+  have hgood : ∀ f ∈ compactFrames fs, GoodFrame hd f ∧ hd.pageSize % 8 = 0 := by
+    intro f hf
+    have hin : f ∈ fs := (compact_sublist fs).subset hf
+    have hfs : f ∈ (readFrames full hd ((wal.drop (32 + start * frameSize hd)).length + 1) (hd.chk1, hd.chk2)
+        (wal.drop (32 + start * frameSize hd))).1 := by
+      have : (scanFrames full hd start wal).1 = fs := by rw [hs]
+      simp only [scanFrames] at this
+      rw [this]; exact hin
+    obtain ⟨g1, g2, g3, g4⟩ := readFrames_good full hd _ _ _ f hfs
+    obtain ⟨w1, w2⟩ := writeCheck_none hd.pageSize _ hw f hf
+    exact ⟨⟨by omega, g1, g2, g3⟩, w2⟩
+  have hrt : parseHeader (serialize hd (compactFrames fs)) = .ok hd ∧
+      scanFrames true hd 0 (serialize hd (compactFrames fs)) = (compactFrames fs, .eof) := by
+    cases hk : compactFrames fs with
+    | nil =>
+      refine ⟨parseHeader_serialize hd hwf _, ?_⟩
+      simp only [scanFrames, serialize, serializeFrames, List.append_nil, Nat.zero_mul, Nat.add_zero]
+      rw [List.drop_of_length_le (by rw [serializeHeader_length]; exact Nat.le_refl _)]
+      simp [readFrames]
+    | cons f t =>
+      rw [← hk]
+      have hp8 : hd.pageSize % 8 = 0 := (hgood f (by rw [hk]; simp)).2
+      exact writer_reader_roundtrip hd hwf hp8 _ (fun g hg => (hgood g hg).1)
+  refine ⟨hd, fs, hp, hs, hrt.1, hrt.2, ?_⟩
+  rw [hrt.2]
+  exact compact_equiv ps db fs ho
 
 /-! ### valid prefix -/
 
